@@ -13,7 +13,7 @@ from geneticengine.solutions.tree import GengyList, LocalSynthesisContext, TreeN
 from geneticengine.representations.tree.utils import relabel_nodes_of_trees
 from geneticengine.grammar.utils import get_arguments, is_builtin_class_instance, is_generic_tuple
 from geneticengine.grammar.utils import is_union, get_generic_parameters
-from geneticengine.grammar.utils import get_generic_parameter
+from geneticengine.grammar.utils import get_generic_parameter, is_abstract
 from geneticengine.grammar.utils import is_generic_list
 from geneticengine.grammar.utils import is_metahandler
 from geneticengine.exceptions import GeneticEngineError
@@ -312,6 +312,9 @@ def create_node(
                 except SynthesisException:
                     compatible_productions.remove(rule)
             raise SynthesisException(f"Could not find any suitable alternative for {starting_symbol}")
+        elif is_abstract(starting_symbol):
+            # an abstract type none of whose productions was supplied: it has no instances (the class itself is not one)
+            raise SynthesisException(f"{starting_symbol} has no production in this grammar")
         else:
             # Normal concrete type (Production)
             args = []
